@@ -637,7 +637,8 @@ static cfg_opt_t *cfg_addopt(cfg_t *cfg, char *key)
 	cfg->opts[num].type = CFGT_STR;
 
 	if (!cfg->opts[num].name) {
-		free(opts);
+		/* keep the (grown) array, its CFG_END() marker is still in place */
+		cfg->opts[num].type = CFGT_NONE;
 		return NULL;
 	}
 
